@@ -408,6 +408,9 @@ func buildServer(c *cfgT, reg *registry, extra ...wire.OptionFn) (*wire.Server, 
 			opts := []wire.PreparedOptionFn{wire.WithParameters(po)}
 			if len(cols) > 0 {
 				opts = append(opts, wire.WithColumns(cols))
+			} else if s.id%2 == 1 {
+				// a column set that is empty but not nil (a filtered or pre-sized slice) is "no columns" as well
+				opts = append(opts, wire.WithColumns(make(wire.Columns, 0, 4)))
 			}
 			out = append(out, wire.NewStatement(fn, opts...))
 		}
